@@ -41,6 +41,7 @@ func main() {
 	commands["c11"] = runC11
 	commands["c07"] = runC07
 	commands["c06"] = runC06
+	commands["c05corpus"] = runC05Corpus
 	commands["c17"] = runC17
 	commands["c14hash"] = func(a []string) { initCollisions(); runC14Hash(a) }
 	registerMore()
